@@ -717,7 +717,8 @@ def newton_iterate(evaluate_fn, s, t):
             linear_updates += 1
         # If ``>=2/3`` of the updates have been linear, we are near a
         # non-simple root. (Make sure at least 5 updates have occurred.)
-        if index >= 4 and 3 * linear_updates >= 2 * index:
+        # NOTE: ``index`` is zero-based, so ``index + 1`` updates have occurred.
+        if index >= 4 and 3 * linear_updates >= 2 * (index + 1):
             break
 
         # Determine the norm of the "old" solution before updating.
